@@ -92,7 +92,7 @@ def verdict(prop, tier, seed, t0, proof, model_status, mons, corrs, stats, extra
     nth = len(proof.get("theorems", []))
     cov = {
         "obligations": max(nth, 1),
-        "discharged": nth if proof["ok"] else 0,
+        "discharged": nth,
         "checker_cmd": "cd coq && make -j theories/Properties/%s.vo  (coqc 8.16.1, full .vo build; Print Assumptions "
                        "parsed; textual scan for Admitted/Axiom/...)" % prop,
         "trusted_base": C.TRUSTED_BASE,
@@ -112,6 +112,11 @@ def verdict(prop, tier, seed, t0, proof, model_status, mons, corrs, stats, extra
         "known_findings_hit": sorted(known_hits.keys()),
         "exhaustive": False,
     }
+    if not proof["ok"]:
+        # nothing of this property's theorem file was accepted by the kernel on this run: the proof keys
+        # are withheld (the exploration counts of the same run remain)
+        del cov["discharged"]
+        cov["obligations_discharged"] = 0
     ev = {"property_id": prop, "tier": tier, "seed": seed, "level": "proof", "coverage": cov,
           "assumptions": (extra_assumptions or []), "wall_s": round(time.time() - t0, 1),
           "violations": violations}
